@@ -144,9 +144,9 @@ func firedKinds(res *Result) []string {
 }
 
 type finding struct {
-	Sig      string                 `json:"sig"`
-	What     string                 `json:"what"`
-	NFaults  int                    `json:"n_faults"`
+	Sig      string `json:"sig"`
+	What     string `json:"what"`
+	NFaults  int    `json:"n_faults"`
 	idx      int
 	Trace    map[string]interface{} `json:"trace"`
 	Observed []string               `json:"observed"`
@@ -265,12 +265,14 @@ func explore(sc *Scenario, wantSample bool) *scenResult {
 }
 
 func boundsFor(thorough bool) bounds {
-	b := bounds{chains: []chainSpec{{6, 3, 2}, {8, 2, 2}}, follows: []uint64{0, 2}, batches: []uint64{1, 2, 5}, scheds: schedOrder,
-		nodeChains: []chainSpec{{6, 2, 2}}, nodeScheds: []string{"every"}}
+	// quick: <= 2 faults everywhere, plus <= 3 faults (reaches the client's Fatal / the node's
+	// restart) on the 6-block chains with at most one log-carrying transaction in node mode
+	b := bounds{chains: []chainSpec{{6, 0, 3, 2}, {8, 0, 2, 2}}, follows: []uint64{0, 2}, batches: []uint64{1, 2, 5}, scheds: schedOrder,
+		nodeChains: []chainSpec{{6, 0, 1, 3}, {6, 2, 2, 2}}, nodeScheds: []string{"every"}}
 	if thorough {
 		// depth (3 faults) on the short chains, breadth (every distribution on chains up to 10) with 2
-		b = bounds{chains: []chainSpec{{6, 3, 3}, {7, 3, 3}, {8, 3, 2}, {9, 3, 2}, {10, 3, 2}}, follows: []uint64{0, 2}, batches: []uint64{1, 2, 5}, scheds: schedOrder,
-			nodeChains: []chainSpec{{6, 3, 3}, {8, 2, 2}}, nodeScheds: []string{"every", "skip3"}}
+		b = bounds{chains: []chainSpec{{6, 0, 3, 3}, {7, 0, 3, 3}, {8, 0, 3, 2}, {9, 0, 3, 2}, {10, 0, 3, 2}}, follows: []uint64{0, 2}, batches: []uint64{1, 2, 5}, scheds: schedOrder,
+			nodeChains: []chainSpec{{6, 0, 3, 3}, {8, 0, 2, 2}}, nodeScheds: []string{"every", "skip3"}}
 	}
 	if v := os.Getenv("C13_K"); v != "" { // development aid
 		k := 0
@@ -467,7 +469,7 @@ func main() {
 	r.Set("rule", "per scenario: the fault-free run, then every placement of <= max_faults faults (FilterLogs/SubscribeNewHead/reconnect-dial/BlockNumber call fails; subscription error in place of the next head) at points the execution actually passes, each placement once; max_faults per chain length as listed in bounds")
 	r.Set("bounds", map[string]interface{}{"chains": b.chains,
 		"log_distributions": "every multiset of <= max_log_txs log-carrying transactions over the blocks 1..n; transaction kinds N (1 log) / R (removed log) / T2 (2 logs in one tx) / T16 (16 logs in one tx), kind profile rotating with the distribution index",
-		"follow_distances": b.follows, "batch_sizes": b.batches, "head_schedules": b.scheds, "from_block": fromBlock,
+		"follow_distances":  b.follows, "batch_sizes": b.batches, "head_schedules": b.scheds, "from_block": fromBlock,
 		"node_mode_chains": b.nodeChains, "node_mode_schedules": b.nodeScheds, "node_mode_tip_at_history_sync": "2, n/2, n-1"})
 	r.Set("scenarios", map[string]interface{}{"total": total, "explored": done, "by_mode": perMode})
 	r.Set("placements_by_number_of_faults", byDepth[:])
